@@ -49,6 +49,7 @@
 
 #include <algorithm>
 #include <atomic>
+#include <exception>
 #include <type_traits>
 
 #if defined(_MSC_VER) && !defined(__INTEL_COMPILER)
@@ -127,6 +128,20 @@ struct node {
 struct wait_node : node {
     wait_node() : node{ nullptr, 1 } {}
     wait_context m_wait{1};
+#if TBB_USE_EXCEPTIONS
+    //! The first exception thrown by a user-provided join while the tree was folded, see fold_tree()
+    std::exception_ptr m_join_exception{};
+    std::atomic<bool> m_join_exception_captured{false};
+
+    //! To be called by the waiting thread after the wait: delivers the exception thrown by a join, if any
+    void rethrow_join_exception() {
+        if (m_join_exception) {
+            std::rethrow_exception(m_join_exception);
+        }
+    }
+#else
+    void rethrow_join_exception() {}
+#endif
 };
 
 //! Join task node that contains shared flag for stealing feedback
@@ -173,7 +188,28 @@ void fold_tree(node* n, const execution_data& ed) {
 
         call_itt_task_notify(acquired, n);
         TreeNodeType* self = static_cast<TreeNodeType*>(n);
+#if TBB_USE_EXCEPTIONS
+        // A user-provided join may throw. The exception must not leave the fold: the task that runs it is already
+        // destroyed (the dispatcher would call cancel() on it) and the rest of the tree still has to be released,
+        // otherwise the wait never completes. So the group is cancelled (the remaining joins are skipped), the
+        // first exception is kept in the root node, which lives in the frame of the waiting call and is rethrown
+        // there, and the fold goes on.
+        try {
+            self->join(ed.context);
+        } catch (...) {
+            ed.context->cancel_group_execution();
+            node* root = parent;
+            while (root->my_parent) {
+                root = root->my_parent;
+            }
+            wait_node* wn = static_cast<wait_node*>(root);
+            if (!wn->m_join_exception_captured.exchange(true)) {
+                wn->m_join_exception = std::current_exception();
+            }
+        }
+#else
         self->join(ed.context);
+#endif
         self->m_allocator.delete_object(self, ed);
         n = parent;
     }
